@@ -522,6 +522,21 @@ def check_rel(rec, case):
             except Exception as exc:
                 r = exc
             results[what] = r
+        if shapes == "nk|nk" and kcols > 1:
+            # same values, other memory layouts: Fortran-ordered prediction against C-ordered truth and
+            # a strided (every second row of a larger buffer) truth
+            A, B = reshape_rel(yp, "nk", kcols), reshape_rel(yt, "nk", kcols)
+            big = np.zeros((2 * B.shape[0], kcols))
+            big[::2] = B
+            for what, a, b in (("fortran-pred", np.asfortranarray(A), B), ("strided-truth", A, big[::2])):
+                rec.ev()
+                rec.count(name + ".layout_calls")
+                try:
+                    r = fn(a, b)
+                    r = float(np.asarray(r).reshape(-1)[0]) if np.size(r) == 1 else r
+                except Exception as exc:
+                    r = exc
+                results[what] = r
         bad = None
         for what, r in results.items():
             if isinstance(r, Exception):
